@@ -38,6 +38,11 @@ type t1Outcome struct {
 	code      sv
 	stackVals []sv
 	frames    []sv
+	// carried: the numeric locals of the decoder (preset to the symbol that is the key) as they
+	// are after the pass: values carried by the command loop and cells shared with closures
+	carried map[string]sv
+	// appendedVals: the values appended to any list during the pass, element by element
+	appendedVals []sv
 }
 
 type t1Machine struct {
@@ -214,6 +219,13 @@ func (m *t1Machine) runX(code []byte, stack, ps, flex []sv, flags map[string]boo
 				p = append(p, ev.render(a))
 			}
 			out.appended = append(out.appended, p...)
+			for _, a := range args[1:] {
+				if el, ok := ev.elems(a); ok && (a.k == svList || a.op == "slice") {
+					out.appendedVals = append(out.appendedVals, el...)
+				} else {
+					out.appendedVals = append(out.appendedVals, a)
+				}
+			}
 			return term("append", args...), true
 		}
 		return sv{}, false
@@ -249,6 +261,8 @@ func (m *t1Machine) runX(code []byte, stack, ps, flex []sv, flags map[string]boo
 	}
 	stackCell := ""
 	var psPhi, flexPhi, codePhi, framesPhi *ssa.Phi
+	var numPhis []*ssa.Phi
+	numCells := map[string]string{}
 	floatLists := 0
 	for _, ins := range m.inner.Instrs {
 		phi, ok := ins.(*ssa.Phi)
@@ -294,6 +308,7 @@ func (m *t1Machine) runX(code []byte, stack, ps, flex []sv, flags map[string]boo
 				fr.vals[phi] = intV(0)
 			} else {
 				fr.vals[phi] = symV("v:" + phi.Comment)
+				numPhis = append(numPhis, phi)
 			}
 		}
 	}
@@ -362,6 +377,7 @@ func (m *t1Machine) runX(code []byte, stack, ps, flex []sv, flags map[string]boo
 				boolCells[a.s] = al.Comment
 			} else if t.Info()&types.IsNumeric != 0 {
 				ev.mem[a.s] = symV("v:" + al.Comment)
+				numCells[a.s] = "v:" + al.Comment
 			}
 		}
 	}
@@ -419,12 +435,38 @@ func (m *t1Machine) runX(code []byte, stack, ps, flex []sv, flags map[string]boo
 					out.frames = append([]sv{}, el...)
 				}
 			}
+			for _, phi := range numPhis {
+				if out.carried == nil {
+					out.carried = map[string]sv{}
+				}
+				out.carried["v:"+phi.Comment] = ev.val(fr, phi.Edges[i])
+			}
 			if depthPhi != nil {
 				if nd := ev.val(fr, depthPhi.Edges[i]); nd.k == svInt {
 					out.frames = []sv{}
 					for j := int64(0); j < nd.i-frameBase && j < 4096; j++ {
 						out.frames = append(out.frames, ev.mem[fmt.Sprintf("%s[%d]", frameArr, j)])
 					}
+				}
+			}
+		}
+	}
+	if out.back {
+		for cell, name := range numCells {
+			if out.carried == nil {
+				out.carried = map[string]sv{}
+			}
+			out.carried[name] = ev.mem[cell]
+		}
+		// numeric locals grouped into a struct: a field cell that was never written is read as the
+		// symbol *cell.f, and that is the key under which its value after the pass is listed
+		for k, v := range ev.mem {
+			if strings.HasPrefix(k, "cell") && strings.Contains(k, ".") && (v.k == svSym || v.k == svInt || v.k == svFloat) {
+				if _, isCell := numCells[k]; !isCell {
+					if out.carried == nil {
+						out.carried = map[string]sv{}
+					}
+					out.carried["*"+k] = v
 				}
 			}
 		}
